@@ -62,7 +62,7 @@ func predInt(tag byte, lo, hi *big.Int) func([]byte) predResult {
 		if (lo != nil && v.Cmp(lo) < 0) || (hi != nil && v.Cmp(hi) > 0) {
 			return rej("integer-out-of-range-for-type")
 		}
-		return predResult{der.Accept, "", v.String(), t.Total}
+		return predResult{der.Accept, "", canonBig(v), t.Total}
 	}
 }
 
@@ -92,6 +92,14 @@ func bounds(bits uint, signed bool) (*big.Int, *big.Int) {
 		return new(big.Int).Neg(bigPow2(bits - 1)), new(big.Int).Sub(bigPow2(bits-1), big.NewInt(1))
 	}
 	return big.NewInt(0), new(big.Int).Sub(bigPow2(bits), big.NewInt(1))
+}
+
+// canonBig: decimal for machine-sized values (so that typed readers compare with fmt.Sprint), hex beyond.
+func canonBig(v *big.Int) string {
+	if v.BitLen() <= 70 {
+		return v.String()
+	}
+	return "0x" + v.Text(16)
 }
 
 func oidString(arcs []*big.Int) string {
@@ -128,9 +136,9 @@ func predBits(asBytes bool) func([]byte) predResult {
 			if bl != 8*len(data) {
 				return rej("bitstring-not-whole-bytes")
 			}
-			return predResult{der.Accept, "", fmt.Sprintf("%x", data), t.Total}
+			return predResult{der.Accept, "", string(data), t.Total}
 		}
-		return predResult{der.Accept, "", fmt.Sprintf("%x/%d", data, bl), t.Total}
+		return predResult{der.Accept, "", fmt.Sprintf("%s/%d", data, bl), t.Total}
 	}
 }
 
@@ -176,9 +184,9 @@ func predTLV(tag byte, anyTag, withHeader bool) func([]byte) predResult {
 		if !anyTag && t.Tag != tag {
 			return rej("tag-mismatch")
 		}
-		v := fmt.Sprintf("%02x:%x", t.Tag, t.Content)
+		v := fmt.Sprintf("%02x:", t.Tag) + string(t.Content)
 		if withHeader {
-			v = fmt.Sprintf("%02x:%x", t.Tag, in[:t.Total])
+			v = fmt.Sprintf("%02x:", t.Tag) + string(in[:t.Total])
 		}
 		return predResult{der.Accept, "", v, t.Total}
 	}
@@ -195,7 +203,7 @@ func predOptional(tag byte, def string, inner func(content []byte) predResult) f
 			return rej(why)
 		}
 		if inner == nil {
-			return predResult{der.Accept, "", fmt.Sprintf("present:%x", t.Content), t.Total}
+			return predResult{der.Accept, "", "present:" + string(t.Content), t.Total}
 		}
 		p := inner(t.Content)
 		if p.zone == der.Reject {
@@ -215,7 +223,7 @@ func predOctetInner(c []byte) predResult {
 	if why != "" {
 		return rej(why)
 	}
-	return predResult{der.Accept, "", fmt.Sprintf("%x", t.Content), t.Total}
+	return predResult{der.Accept, "", string(t.Content), t.Total}
 }
 
 func tagsFor(in []byte) (own, other byte) {
@@ -252,14 +260,14 @@ func buildReaders() []reader {
 		s := cryptobyte.String(in)
 		v := new(big.Int)
 		ok := s.ReadASN1Integer(v)
-		return ok, v.String(), s
+		return ok, canonBig(v), s
 	}, predInt(tagInt, nil, nil), func(in []byte) (bool, string, []byte) {
 		var v *big.Int
 		rest, err := encasn1.Unmarshal(in, &v)
 		if err != nil {
 			return false, "", nil
 		}
-		return true, v.String(), rest
+		return true, canonBig(v), rest
 	}})
 	rs = append(rs, reader{"ReadASN1Integer(*[]byte)", func(in []byte) (bool, string, []byte) {
 		s := cryptobyte.String(in)
@@ -273,7 +281,7 @@ func buildReaders() []reader {
 		if len(v) == 0 || (len(v) > 1 && v[0] == 0) {
 			return true, fmt.Sprintf("malformed-magnitude:%x", v), s
 		}
-		return true, n.String(), s
+		return true, canonBig(n), s
 	}, predInt(tagInt, big.NewInt(0), nil), nil})
 	rs = append(rs, reader{"ReadASN1Int64WithTag(own-tag)", func(in []byte) (bool, string, []byte) {
 		s := cryptobyte.String(in)
@@ -320,17 +328,17 @@ func buildReaders() []reader {
 		s := cryptobyte.String(in)
 		var v encasn1.BitString
 		ok := s.ReadASN1BitString(&v)
-		return ok, fmt.Sprintf("%x/%d", v.Bytes, v.BitLength), s
+		return ok, fmt.Sprintf("%s/%d", v.Bytes, v.BitLength), s
 	}, predBits(false), func(in []byte) (bool, string, []byte) {
 		var v encasn1.BitString
 		rest, err := encasn1.Unmarshal(in, &v)
-		return err == nil, fmt.Sprintf("%x/%d", v.Bytes, v.BitLength), rest
+		return err == nil, fmt.Sprintf("%s/%d", v.Bytes, v.BitLength), rest
 	}})
 	rs = append(rs, reader{"ReadASN1BitStringAsBytes", func(in []byte) (bool, string, []byte) {
 		s := cryptobyte.String(in)
 		var v []byte
 		ok := s.ReadASN1BitStringAsBytes(&v)
-		return ok, fmt.Sprintf("%x", v), s
+		return ok, string(v), s
 	}, predBits(true), nil})
 	stdTime := func(tag byte) func(in []byte) (bool, string, []byte) {
 		return func(in []byte) (bool, string, []byte) {
@@ -373,21 +381,21 @@ func buildReaders() []reader {
 			var out cryptobyte.String
 			tag := pick(in)
 			ok := s.ReadASN1(&out, asn1.Tag(tag))
-			return ok, fmt.Sprintf("%02x:%x", tag, []byte(out)), s
+			return ok, fmt.Sprintf("%02x:", tag) + string(out), s
 		}, func(in []byte) predResult { return predTLV(pick(in), false, false)(in) }, nil})
 		rs = append(rs, reader{"ReadASN1Bytes" + sfx, func(in []byte) (bool, string, []byte) {
 			s := cryptobyte.String(in)
 			var out []byte
 			tag := pick(in)
 			ok := s.ReadASN1Bytes(&out, asn1.Tag(tag))
-			return ok, fmt.Sprintf("%02x:%x", tag, out), s
+			return ok, fmt.Sprintf("%02x:", tag) + string(out), s
 		}, func(in []byte) predResult { return predTLV(pick(in), false, false)(in) }, nil})
 		rs = append(rs, reader{"ReadASN1Element" + sfx, func(in []byte) (bool, string, []byte) {
 			s := cryptobyte.String(in)
 			var out cryptobyte.String
 			tag := pick(in)
 			ok := s.ReadASN1Element(&out, asn1.Tag(tag))
-			return ok, fmt.Sprintf("%02x:%x", tag, []byte(out)), s
+			return ok, fmt.Sprintf("%02x:", tag) + string(out), s
 		}, func(in []byte) predResult { return predTLV(pick(in), false, true)(in) }, nil})
 		rs = append(rs, reader{"SkipASN1" + sfx, func(in []byte) (bool, string, []byte) {
 			s := cryptobyte.String(in)
@@ -400,7 +408,7 @@ func buildReaders() []reader {
 			var present bool
 			ok := s.ReadOptionalASN1(&out, &present, asn1.Tag(pick(in)))
 			if present {
-				return ok, fmt.Sprintf("present:%x", []byte(out)), s
+				return ok, "present:" + string(out), s
 			}
 			return ok, "absent:", s
 		}, func(in []byte) predResult { return predOptional(pick(in), "", nil)(in) }, nil})
@@ -424,7 +432,7 @@ func buildReaders() []reader {
 			s := cryptobyte.String(in)
 			v := new(big.Int)
 			ok := s.ReadOptionalASN1Integer(v, asn1.Tag(pick(in)), big.NewInt(-77))
-			return ok, v.String(), s
+			return ok, canonBig(v), s
 		}, func(in []byte) predResult {
 			p := predOptional(pick(in), "-77", predInt(tagInt, nil, nil))(in)
 			p.val = strings.TrimPrefix(strings.TrimPrefix(p.val, "present:"), "absent:")
@@ -436,7 +444,7 @@ func buildReaders() []reader {
 			var present bool
 			ok := s.ReadOptionalASN1OctetString(&v, &present, asn1.Tag(pick(in)))
 			if present {
-				return ok, fmt.Sprintf("present:%x", v), s
+				return ok, "present:" + string(v), s
 			}
 			if v != nil {
 				return ok, "absent:non-nil", s
@@ -459,31 +467,31 @@ func buildReaders() []reader {
 		var out cryptobyte.String
 		var tag asn1.Tag
 		ok := s.ReadAnyASN1(&out, &tag)
-		return ok, fmt.Sprintf("%02x:%x", byte(tag), []byte(out)), s
+		return ok, fmt.Sprintf("%02x:", byte(tag)) + string(out), s
 	}, predTLV(0, true, false), nil})
 	rs = append(rs, reader{"ReadAnyASN1Element", func(in []byte) (bool, string, []byte) {
 		s := cryptobyte.String(in)
 		var out cryptobyte.String
 		var tag asn1.Tag
 		ok := s.ReadAnyASN1Element(&out, &tag)
-		return ok, fmt.Sprintf("%02x:%x", byte(tag), []byte(out)), s
+		return ok, fmt.Sprintf("%02x:", byte(tag)) + string(out), s
 	}, predTLV(0, true, true), func(in []byte) (bool, string, []byte) {
 		var v encasn1.RawValue
 		rest, err := encasn1.Unmarshal(in, &v)
 		if err != nil || len(in) == 0 {
 			return false, "", nil
 		}
-		return true, fmt.Sprintf("%02x:%x", in[0], v.FullBytes), rest
+		return true, fmt.Sprintf("%02x:", in[0]) + string(v.FullBytes), rest
 	}})
 	rs = append(rs, reader{"ReadASN1Bytes(OCTET_STRING)", func(in []byte) (bool, string, []byte) {
 		s := cryptobyte.String(in)
 		var out []byte
 		ok := s.ReadASN1Bytes(&out, asn1.OCTET_STRING)
-		return ok, fmt.Sprintf("04:%x", out), s
+		return ok, "04:" + string(out), s
 	}, predTLV(tagOctet, false, false), func(in []byte) (bool, string, []byte) {
 		var v []byte
 		rest, err := encasn1.Unmarshal(in, &v)
-		return err == nil, fmt.Sprintf("04:%x", v), rest
+		return err == nil, "04:" + string(v), rest
 	}})
 	return rs
 }
@@ -566,7 +574,7 @@ func TestC23(t *testing.T) {
 					m.Count("std-both-accept:"+rd.name, 1)
 					if sval != val || len(srest) != len(rest) {
 						if p.zone != der.Reject && val == p.val {
-							m.Inconclusive(fmt.Sprintf("encoding/asn1 disagrees with the DER reference and cryptobyte on %x (%s): %s vs %s", trunc(in), rd.name, sval, val))
+							m.Inconclusive(fmt.Sprintf("encoding/asn1 disagrees with the DER reference and cryptobyte on %x (%s): %s vs %s", trunc(in), rd.name, truncS(sval), truncS(val)))
 						} else {
 							w := wit()
 							w["encoding_asn1_value"] = truncS(sval)
@@ -620,11 +628,18 @@ func trunc(b []byte) []byte {
 	return b
 }
 
+// truncS renders a canonical value for a witness: printable text as is, anything else as hex.
 func truncS(s string) string {
-	if len(s) > 300 {
-		return s[:300] + "…"
+	more := ""
+	if len(s) > 200 {
+		s, more = s[:200], "…"
 	}
-	return s
+	for _, c := range []byte(s) {
+		if c < 0x20 || c > 0x7e {
+			return fmt.Sprintf("hex:%x%s", s, more)
+		}
+	}
+	return s + more
 }
 
 // ---------------------------------------------------------------------------
@@ -734,15 +749,20 @@ func checkBuilders(m *mon.M, i int64, r *rand.Rand) {
 		m.Count("builder_outputs_checked", 1)
 		m.Count("builder:"+bcs.name, 1)
 		m.Distinct(fmt.Sprintf("builder/%s/nested=%v", bcs.name, nested))
-		wit := map[string]any{"builder": bcs.name, "nested": nested, "value": truncS(fmt.Sprint(bcs.std)), "got": mon.Hex(out), "err": fmt.Sprint(err)}
+		wit := map[string]any{"builder": bcs.name, "nested": nested, "err": fmt.Sprint(err)}
+		full := func() map[string]any {
+			wit["value"], wit["got"] = truncS(fmt.Sprint(bcs.std)), mon.Hex(out)
+			return wit
+		}
 		if pv != nil {
+			full()
 			wit["panic"] = fmt.Sprint(pv)
 			m.Violation("panic:"+mon.PanicSite(stack), wit)
 			continue
 		}
 		if bcs.wantErr {
 			if err == nil {
-				m.Violation("builder-accepts-unrepresentable:"+bcs.name, wit)
+				m.Violation("builder-accepts-unrepresentable:"+bcs.name, full())
 			}
 			continue
 		}
@@ -750,7 +770,6 @@ func checkBuilders(m *mon.M, i int64, r *rand.Rand) {
 		if nested {
 			want = der.EncodeTLV(tagSeq, append([]byte{tagNull, 0}, want...))
 		}
-		wit["want"] = mon.Hex(want)
 		if bcs.eitherT {
 			m.Count("builder_time_non_utc_zone(form not judged)", 1)
 			if err == nil && !bytes.Equal(out, want) {
@@ -759,11 +778,12 @@ func checkBuilders(m *mon.M, i int64, r *rand.Rand) {
 			continue
 		}
 		if err != nil {
-			m.Violation("builder-error-on-representable:"+bcs.name, wit)
+			m.Violation("builder-error-on-representable:"+bcs.name, full())
 			continue
 		}
 		if !bytes.Equal(out, want) {
-			m.Violation("builder-not-der:"+bcs.name, wit)
+			wit["want"] = mon.Hex(want)
+			m.Violation("builder-not-der:"+bcs.name, full())
 		}
 		if bcs.std != nil && !nested {
 			var sb []byte
@@ -779,8 +799,8 @@ func checkBuilders(m *mon.M, i int64, r *rand.Rand) {
 					if bytes.Equal(out, want) {
 						m.Inconclusive(fmt.Sprintf("asn1.Marshal disagrees with reference DER and cryptobyte for %s: %x vs %x", bcs.name, trunc(sb), trunc(out)))
 					} else {
-						wit["asn1_marshal"] = mon.Hex(sb)
-						m.Violation("builder-differs-from-asn1-marshal:"+bcs.name, wit)
+						wit["asn1_marshal"], wit["want"] = mon.Hex(sb), mon.Hex(want)
+						m.Violation("builder-differs-from-asn1-marshal:"+bcs.name, full())
 					}
 				}
 			}
